@@ -263,7 +263,7 @@ func run(c *vf.Ctx) {
 		}
 		return
 	}
-	c.SetRule("one evaluation = one oracle decision on the real daemon: (a) at every quiescent point of a scripted scenario (all goroutines parked, shutdown goroutine in WaitGroup.Wait or gone) each live worker's ctx.Err() is compared with 'every worker of strictly higher order has returned' (both directions), ShutdownAndWait/Run callers that returned are checked against unreturned workers, registrations of running names / after shutdown must be refused, a BackgroundWorker call gated at daemon.bgworker.afterStoppedCheck while shutdown runs must be refused or its worker cancelled and waited for; (b) per BackgroundWorker call of the free-running stress (plain and -race): accepted workers returned before ShutdownAndWait did (logical clock), cancelled workers see no cancelled unreturned lower-order worker. Configurations come from a per-index seed (orders from a pool with ties, negatives, gaps, extremes; early finishers; re-registration; 1-4 shutdown callers; Run). distinct_nontrivial counts distinct (order multiset at shutdown, gate-release order, variant set) triples of started daemons with >= 2 distinct orders and >= 1 gate release")
+	c.SetRule("one evaluation = one oracle decision on the real daemon: (a) at every quiescent point of a scripted scenario (all goroutines parked, shutdown goroutine in WaitGroup.Wait or gone) each live worker's ctx.Err() is compared with 'every worker of strictly higher order has returned' (both directions), ShutdownAndWait/Run callers that returned are checked against unreturned workers, registrations of running names / after shutdown must be refused, a BackgroundWorker call gated at daemon.bgworker.afterStoppedCheck while shutdown runs must be refused or its worker cancelled and waited for; (b) per BackgroundWorker call of the free-running stress (plain and -race; every third iteration is the 'worker exit vs re-registration' workload: callers spin on BackgroundWorker(sameName) while the old handler returns, 2-5 names, up to 3 generations, optional Run, shutdown after or during): accepted workers returned before ShutdownAndWait did (logical clock), cancelled workers see no cancelled unreturned lower-order worker. Configurations come from a per-index seed (orders from a pool with ties, negatives, gaps, extremes; early finishers; re-registration; 1-4 shutdown callers; Run). distinct_nontrivial counts distinct (order multiset at shutdown, gate-release order, variant set) triples of started daemons with >= 2 distinct orders and >= 1 gate release")
 	nCfg := c.Pick(1200, 20000)
 	procs := runtime.NumCPU() / 2
 	if procs < 2 {
@@ -310,6 +310,10 @@ func run(c *vf.Ctx) {
 	c.Require("variant_run", nCfg/10)
 	c.Require("stress_iterations", (plainBatches*plainIters+raceBatches*raceIters)*4/5) // a child killed by a defect loses the iterations since its last flush
 	c.Require("stress_calls_overlapping_shutdown", 2000)
+	c.Require("rereg_iterations", (plainBatches*plainIters+raceBatches*raceIters)/4)
+	c.Require("rereg_accepted", 10000)
+	c.Require("rereg_attempts_while_old_worker_exiting", 50) // refusals observed after the old handler had returned: the call raced the exit path
+	c.Require("rereg_accepted_early", 20)                    // ... and the retry was then accepted
 	c.Assume("runtime.Stack(all) snapshots are consistent (stop-the-world); a process in which every goroutine is parked on a channel/sync primitive and no timer exists cannot make progress by itself (the daemon uses no timers and no logger unless DebugLogger is called)")
 	c.Assume("sync/atomic operations are sequentially consistent (logical clock, returned flags)")
 }
